@@ -20,7 +20,7 @@ from . import c11 as _c11
 
 PROP = "C13"
 ACCOUNT = "games"
-TAGRE = re.compile(rb"f\d+l\d+|dflt")
+TAGRE = re.compile(rb"(?<![A-Za-z0-9_])(?:f\d+l\d+|dflt)(?![A-Za-z0-9_])")
 PROBE = r'''#!/bin/sh
 # usage: probe.sh LOG REC TAG EXITCODE
 L="$1"; R="$2"; T="$3"; X="$4"
@@ -654,7 +654,7 @@ def main(tier):
         raise core.Inconclusive("C13 needs root to create homes for an unprivileged account")
     b = build.vbuild("asan")
     tools = _c11.snapshot_tools(("nqshim.so", "qq-rec"))
-    n = core.scaled(3000 if tier == "quick" else 100000)
+    n = core.scaled(6000 if tier == "quick" else 150000)
     res = core.pmap(worker, [(b.dir, tools, lo, hi) for lo, hi in core.chunks(n, core.JOBS * 2)], timeout=7200)
     return core.finish(PROP, tier, "exploration", res, RULE % n, t0, assumptions=[
         "reference model nqv/refmodel/dotqmail_model.py written from dot-qmail(5), qmail-command(8), qmail-local(8); facts the "
